@@ -17,6 +17,7 @@ CLASSES = ['LinkedListNNPS', 'CellIndexingNNPS', 'ZOrderNNPS',
            'ExtendedZOrderNNPS', 'StratifiedSFCNNPS', 'OctreeNNPS',
            'CompressedOctreeNNPS']
 REGULAR = ['uniform', 'clustered', 'lattice', 'lattice_faces', 'collinear',
+           'axis_flat',
            'coplanar', 'sparse_corner', 'two_blobs']
 
 
